@@ -1,0 +1,11 @@
+//go:build !verif
+
+package escape
+
+func verifPreMerge(_ *EscapeGraph) *EscapeGraph { return nil }
+
+func verifPostMerge(_, _, _ *EscapeGraph) {}
+
+func verifPickBlock(_ *functionAnalysisState) {}
+
+func verifPickFunc(_ []*functionAnalysisState) {}
